@@ -116,6 +116,72 @@ pub fn run(report: &Report, thorough: bool) -> Evidence {
                     }
                 };
                 let n = list0.len();
+                // R6: a backspace right before the commit. After the text has learned candidate i (preselected now), it is typed
+                // again, the last character is removed, and the same index i - not the preselected one of the shorter text -
+                // is committed there: the shorter text must recall it too (what the commit compares with is the list shown
+                // last, not the one before the backspace). Also the other way round: committing the preselected candidate of
+                // the shorter text learns nothing.
+                if wi <= 1 && text.chars().count() >= 2 {
+                    for i in 1..n {
+                        if histgraph::fresh(&mut ctx, &files).is_err() {
+                            continue;
+                        }
+                        let mut evs: Vec<Ev> = vec![];
+                        let Ok(Some(_)) = type_text(&mut ctx, &text, &mut evs) else { continue };
+                        evs.push(Ev::Commit(i));
+                        if ctx.apply(&Ev::Commit(i)).is_err() {
+                            continue;
+                        }
+                        let Ok(Some(shown)) = type_text(&mut ctx, &text, &mut evs) else { continue };
+                        if shown.sel() != i {
+                            continue; // (not recalled: reported by R1)
+                        }
+                        evs.push(Ev::Bs);
+                        let rb = match ctx.apply(&Ev::Bs) {
+                            Ok(Out::Sugg(r)) => r,
+                            _ => continue,
+                        };
+                        let shorter: String = {
+                            let mut cs: Vec<char> = text.chars().collect();
+                            cs.pop();
+                            cs.into_iter().collect()
+                        };
+                        if shorter.contains(':') || shorter.contains('`') || rb.len() == 0 {
+                            continue;
+                        }
+                        let p2 = rb.sel();
+                        let before = file_state(&o);
+                        if p2 != i && i < rb.len() {
+                            let chosen2 = rb.items()[i].clone();
+                            evs.push(Ev::Commit(i));
+                            commits.fetch_add(1, Ordering::Relaxed);
+                            if let Err(f) = ctx.apply(&Ev::Commit(i)) {
+                                report.add(fail_violation("C09", &f, &o, &evs));
+                                continue;
+                            }
+                            learn_recall.fetch_add(1, Ordering::Relaxed);
+                            let mut e1 = evs.clone();
+                            if let Ok(Some(r)) = type_text(&mut ctx, &shorter, &mut e1) {
+                                let got = r.items().get(r.sel()).cloned();
+                                if got.as_ref() != Some(&chosen2) {
+                                    viol("not-recalled", "not-recalled:commit-after-backspace", &e1, format!("{:?} typed, one backspace, candidate {:?} (index {}) of {:?} committed; re-typed: preselected {:?} in {:?}", text, chosen2, i, shorter, got, r.items()));
+                                }
+                            }
+                        } else if p2 < rb.len() {
+                            evs.push(Ev::Commit(p2));
+                            preselected_commits.fetch_add(1, Ordering::Relaxed);
+                            if ctx.apply(&Ev::Commit(p2)).is_err() {
+                                continue;
+                            }
+                            let after = file_state(&o);
+                            let canon = |b: &Option<Vec<u8>>| b.as_ref().and_then(|b| serde_json::from_slice::<BTreeMap<String, String>>(b).ok());
+                            if canon(&before) != canon(&after) {
+                                viol("preselected-commit-changed-store", "preselected-commit-changed-store:after-backspace", &evs, format!("store before {:?}, after {:?}", canon(&before), canon(&after)));
+                            }
+                        }
+                        events.fetch_add(evs.len() as u64, Ordering::Relaxed);
+                    }
+                }
                 for i in 0..n {
                     for (ii, inter) in interleave.iter().enumerate() {
                         // other learning commits only for the bare form and the first wrapping (fixed sub-list)
